@@ -62,6 +62,11 @@ def jobs(tier, seed):
     for stacks in [(3, 5), (2, 7), (6, 6), (1, 4), (4, 1), (5, 2)]:
         for structure in ('NL', 'PL', 'FL'):
             out.append(_j('heads-up', C.custom(stacks, st2(), structure=structure, blinds=(1, 2), **kw)))
+    # pot-limit with a rake: the pot a pot-sized raise is measured against is everything the players put in, raked part included
+    for stacks in [(20, 20), (15, 25, 20), (30, 12, 30)]:
+        for rake in [('pct', 1, 10, None, False), ('pct', 1, 4, 2, False), ('pct', 1, 10, None, True)]:
+            out.append(_j('PL-with-rake', C.custom(stacks, st2(), structure='PL', blinds=(1, 2), rake=rake, **kw),
+                          opts={'raises': 'minmax'}, dev_bound=4))
     # caps
     for cap in (1, 2, 4):
         for stacks in [(9, 9, 9), (5, 12, 7), (30, 30, 30)]:
